@@ -814,3 +814,41 @@ def run_e2p(prog, rep):
 
 def _fail(body):
     return _failure_blocks(body)
+
+
+def lazy_value_encapsulated(prog, rep, rule="E6.v"):
+    """the shape of a deferred value (LazyValue's variant) is looked at only by its own evaluator — which polls first — and by the
+    derived / display impls: code that matches on `LazyValue::Value(..)` elsewhere evaluates (or skips evaluating) a deferred value
+    without the poll, and decides at match time what the evaluation phase is for"""
+    from ..lib.cfgq import switch_edges
+    adt = "tsg::execution::lazy::values::LazyValue"
+    rep.rule(rule, "LazyValue's variant is read only by LazyValue::evaluate (after the poll) and by Clone / Debug / Display: no other code looks inside a deferred value")
+    a = prog.adts.get(adt)
+    if a is None:
+        rep.violation(rule, "anchor-lost:LazyValue", "", "type not found")
+        return 0
+    vs = {v["name"] for v in a["variants"]}
+    n = 0
+    for f in sorted(prog.shape_fns(), key=lambda x: x.id):
+        if f.body is None or f.crate.prefix != "tsg":
+            continue
+        body = f.body
+        tr = None
+        for b in sorted(body.reachable()):
+            t = body.term(b)
+            if t["k"] != "switch":
+                continue
+            tr = tr or Tracer(body)
+            cond = tr.operand(t["discr"])
+            if cond[0] != "discr" or {v for _k, v in cond[2]} != vs:
+                continue
+            n += 1
+            own = f.self_path == adt and (f.name in ("evaluate", "clone", "fmt"))
+            polled = True
+            if own and f.name == "evaluate":
+                polled = not (body.reach_from([0], avoid=poll_blocks(body)) & {b})
+            rep.check(own and polled, rule, "%s :: reads the variant" % f.id, sp_str(t.get("sp")) if t.get("sp") else f.loc(),
+                      "the evaluator itself (after its poll)" if f.name == "evaluate" else "derived / display impl",
+                      "%s looks inside a deferred value (matches on LazyValue's variant)%s: the value is handled without going through the polled evaluator"
+                      % (f.name, "" if own else " outside LazyValue::evaluate"))
+    return n
